@@ -987,6 +987,7 @@ def _compute_delj(dx, MInt, VInt, axis=0):
         upslice = [nuax for ii in range(MInt.ndim)]
         upslice [axis] = slice(None)
 
+        upslice = tuple(upslice)
         wj = 2 *MInt*dx[upslice]
         epsj = numpy.exp(wj/VInt[upslice])
         delj = (-epsj*wj + epsj * VInt[upslice] - VInt[upslice])/(wj - epsj*wj)
